@@ -7,13 +7,13 @@ MODEL_MODULES = ["Base", "Index", "Compare"]
 HANDLERS = ["h_c18.ml"]
 CLAIM = dict(
     text=("Kernel-checked for every shape, every value and every nesting of optional / either / tuple operands, in both builds "
-          "(NDEBUG and asserts on): utils::isequal (public entry and detail:: entry) returns exactly structural equality — same "
-          "dimension, same shape, all elements equal; empty optional = empty optional, empty <> present; eithers alternative by "
-          "alternative; tuples component by component — or the pairing is rejected at compile time; it is reflexive, symmetric, "
-          "returns false on different length / dimension / shape, never aborts and never reads outside an operand. isclose: on "
-          "equal shapes exactly 'all |a-b| < eps'; with asserts on it returns the reference answer or aborts; under NDEBUG it always "
-          "returns and every read stays inside its buffer. REFUTED (known findings): isclose checks shapes by assert only, so "
-          "under NDEBUG (2,3) vs (3,2), (2,2) vs (2,3) compare as true, and it aborts otherwise; isclose(either, plain, eps) drops eps. "
+          "(NDEBUG and asserts on): utils::isequal and utils::isclose (public entries and detail:: entries) return exactly the "
+          "structural comparison — same dimension, same shape, all elements equal / all |a-b| < eps; empty optional = empty "
+          "optional, empty <> present; eithers alternative by alternative (with the caller's eps); tuples component by component — "
+          "or the pairing is rejected at compile time; both are reflexive, symmetric, return false on different length / "
+          "dimension / shape, never abort and never read outside an operand. (isclose reached this through three repairs found "
+          "here: run-time shape test instead of assert-only, eps forwarded by the one-sided either arms, scalar difference in the "
+          "common type; the last one is listed as a known finding until it is in the tree.) "
           "Tied to the C++ by running both functions in three builds (NDEBUG, asserts+ASan+UBSan, NDEBUG+ASan) on all ordered pairs "
           "of shapes dim 1..3 extents 1..3, perturbations at every position, index arrays of four container kinds incl. "
           "compile-time constants, dynamic / fixed nested std::array / view operands, optionals, eithers, tuples, both argument orders."),
@@ -28,16 +28,19 @@ RULE = ("all ordered pairs of shapes dim 1..3 extents 1..3 (39x39) with iota dat
 THEOREM_STATUS = {
     "proved": ["C18_isequal_is_structural_equality", "C18_isequal_never_aborts_or_reads_outside", "C18_isequal_reflexive",
                "C18_isequal_symmetric", "C18_isequal_different_shape_is_false", "C18_isequal_different_length_is_false",
-               "C18_isequal_maybe_either_tuple", "C18_isclose_same_shape", "C18_isclose_debug_on_domain", "C18_reference_symmetric"],
-    "partial": ["C18_isclose_ndebug_reads_inside_partial"],
-    "refuted": ["C18_isclose_shape_refuted", "C18_isclose_either_eps_refuted", "C18_isclose_unsigned_refuted"]}
+               "C18_isequal_maybe_either_tuple", "C18_isclose_is_structural_closeness", "C18_isclose_never_aborts_or_reads_outside",
+               "C18_isclose_reflexive_symmetric", "C18_isclose_different_shape_is_false", "C18_isclose_same_shape",
+               "C18_reference_symmetric"],
+    "partial": [],
+    "refuted": ["C18_isclose_unsigned_refuted"]}
 ASSUMPTIONS = ["operands are well formed: extents >= 1, buffer length = product of extents, index arrays non-empty",
                "either alternatives are scalars / ndarray-kind integer containers / ndarrays, possibly optional (nested eithers and "
                "tuples inside an either are outside the domain; the header marks them TODO / unsupported)",
                "pair domain: no either anywhere, or no tuple-of-integers container anywhere (detail::same_concept never matches a "
                "tuple of integers against an either alternative)",
                "isclose values and eps are integers on a common scale (wire scale 4: exact binary fractions); NaN / inf handling "
-               "(off by default) is not modelled",
+               "(off by default) is not modelled; integer element types are modelled as mathematical integers (the unsigned "
+               "wrap of the scalar difference before its fix is the listed finding isclose-unsigned-difference-wraps)",
                "a general tuple against a fixed-size integer container is not modelled (never generated)"]
 
 _here = os.path.dirname(os.path.abspath(__file__))
@@ -204,19 +207,11 @@ def distribution(streams):
 
 def classify(line, impl, spec, model):
     op = line.split(" ")[0]
-    if not op.startswith("cl_"): return None
-    m = re.match(r"ndebug:(.*) debug:(.*)$", model)
-    nd, dbg = (m.group(1), m.group(2)) if m else (model, model)
     if op == "cl_ii" and spec == "ok 1" and impl == "ok 0":
         t = line.split(" ")
         ka, kb = t[1][2:], t[2][2:]
         x = [int(v) for v in t[3][2:].split(",")]; y = [int(v) for v in t[4][2:].split(",")]
         # an unsigned side (std::array<size_t>): t - u is computed in size_t and wraps whenever t < u
+        # (zero hits once the fix "isclose on integer scalars subtracts in the common type" is in the tree)
         if "arr" in (ka, kb) and len(x) == len(y) and any(a < b for a, b in zip(x, y)): return "isclose-unsigned-difference-wraps"
-    predicted = impl == nd or (dbg == "abort" and impl == "trap signal 6")
-    if not predicted: return None
-    if shape_mismatch(line): return "isclose-shape-by-assert-only"
-    eps = int(line.split(" ")[-1][2:])
-    if op in ("cl_ea", "cl_ae", "cl_en", "cl_ne") and eps != 1 and impl == "ok 0" and spec == "ok 1":
-        return "isclose-either-drops-eps"
     return None
